@@ -1,6 +1,7 @@
 package schd
 
 import (
+	"bytes"
 	"fmt"
 	"sort"
 	"strings"
@@ -34,12 +35,13 @@ type opRec struct {
 }
 
 type w13 struct {
-	st    *store.Store
-	a, b  *ipfslog.IPFSLog
-	c     *ipfslog.IPFSLog
-	obs   *obs
-	recs  [][]opRec   // per thread
-	reads [][]readRec // per thread: what each reader call on a log returned, with its call/return timestamps
+	st              *store.Store
+	a, b            *ipfslog.IPFSLog
+	c               *ipfslog.IPFSLog
+	obs             *obs
+	identityChanged bool
+	recs            [][]opRec   // per thread
+	reads           [][]readRec // per thread: what each reader call on a log returned, with its call/return timestamps
 	// truncated: the scenario works on a size-bounded log, which by design lacks predecessors of its oldest entries
 	truncated bool
 }
@@ -183,6 +185,20 @@ func inPast(u map[string]iface.IPFSLogEntry, of, x iface.IPFSLogEntry) bool {
 func (w *w13) finalCheck(l *ipfslog.IPFSLog, name string, bounded bool) (string, []sched.Finding) {
 	var fs []sched.Finding
 	add := func(key, what string) { fs = append(fs, sched.Finding{Key: key, What: what}) }
+	if w.identityChanged {
+		// whichever identity change came last, the log is one writer afterwards: what it appends now is signed by
+		// the identity whose key is its clock id (an identity change that interleaved with another must not leave
+		// the key of one and the clock of the other)
+		e, err := l.Append(world.Ctx, []byte("after-identity-change"), &ipfslog.AppendOptions{PointerCount: 4})
+		switch {
+		case err != nil:
+			add("append-after-identity-change-failed", err.Error())
+		case !bytes.Equal(e.GetKey(), e.GetClock().GetID()):
+			add("identity-and-clock-disagree", fmt.Sprintf("after the identity changes an appended entry is signed with key %x... but stamped with clock id %x...", e.GetKey()[:6], e.GetClock().GetID()[:6]))
+		case e.GetIdentity() == nil || !bytes.Equal(e.GetIdentity().PublicKey, e.GetKey()):
+			add("identity-and-key-disagree", "after the identity changes an appended entry carries an identity whose public key is not the entry's key")
+		}
+	}
 	for _, o := range w.obs.all() {
 		k := o
 		if i := strings.Index(o, ":"); i > 0 {
@@ -438,6 +454,14 @@ func c13Scenarios(tier string) []Spec {
 		}, A, true),
 		mk("S6-setidentity|append|heads", 3, b1, func(w *w13) []func() {
 			return []func(){func() { w.a.SetIdentity(world.IDs[2]) }, func() { w.appendOp(1, w.a, "x1") }, func() { w.readHeadsEntries(2, w.a) }}
+		}, A, false),
+		mk("S13-setidentity|setidentity", 2, b2, func(w *w13) []func() {
+			w.identityChanged = true
+			return []func(){func() { w.a.SetIdentity(world.IDs[2]) }, func() { w.a.SetIdentity(world.IDs[3]) }}
+		}, A, false),
+		mk("S14-setidentity|setidentity|append", 3, b1, func(w *w13) []func() {
+			w.identityChanged = true
+			return []func(){func() { w.a.SetIdentity(world.IDs[2]) }, func() { w.a.SetIdentity(world.IDs[3]) }, func() { w.appendOp(2, w.a, "x1") }}
 		}, A, false),
 		mk("S7-iterator|append", 2, b2, func(w *w13) []func() {
 			return []func(){func() { w.readIterator(0, w.a) }, func() { w.appendOp(1, w.a, "x1") }}
